@@ -32,11 +32,14 @@ PID = "C11"
 LEVEL = "exploration"
 RULE = (
     "seeded generator over (a) database histories: sequences of 5-40 operations among store(new point, outputs), "
-    "store(existing point, new output names), store(point, {}), export(append=True) to the main file, "
-    "export(append=False) to a second file, export(append=True) to a third file, reload-and-continue, with value "
-    "kinds {float, float64, int, size-1 array, vector, matrix, list[int], gradients '@name'}, float or integer "
-    "points, root or nested HDF node, file initially absent / holding an earlier database (from_hdf or "
-    "update_from_hdf) / holding another node, default or explicit input space; (b) design spaces (multi-character "
+    "store(existing point, new output names), store(point, {}), export(append=True) to one of 1-4 append targets "
+    "drawn from {file A root, file A node n1, file A node grp/sub, file B root, file B node n2} in any interleaving "
+    "(several files and several nodes of one file), export(append=False) to a further file, reload-from-a-target-"
+    "and-continue, with value kinds {float, float64, int, size-1 array, vector, matrix, list[int], gradients "
+    "'@name'}, float or integer points, file initially absent / holding an earlier database (from_hdf or "
+    "update_from_hdf) / holding another node, default or explicit input space; every target is reloaded after each "
+    "of its appends and, at the end, compared with the model and with a single final export; "
+    "(b) design spaces (multi-character "
     "names, mixed types, +-inf bounds, missing values) written to .h5/.hdf5/.hdf/.csv/.txt and to nested nodes; "
     "(c) optimization problems (objective, 0-3 constraints, 0-2 observables, min/max) saved after SLSQP / LHS / "
     "CustomDOE runs at root or nested nodes or through an incremental backup listener; (d) HDF5Cache histories "
@@ -83,24 +86,28 @@ ANCHORS = [
     "gemseo.caches._hdf5_file_singleton:HDF5FileSingleton.read_data",
     "gemseo.caches.hdf5_cache:HDF5Cache._read_hashes",
 ]
-MIN_COUNTERS = {  # about half of what seed 0 observes on the unchanged tree
-    "quick": {"db_histories": 195, "db_exports_append": 1300, "db_exports_full": 230, "db_exports_append_other": 35,
-              "db_reloads_compared": 1550, "db_appends_with_new_outputs_at_existing_points": 530,
-              "db_final_equivalence_checked": 140, "db_continued_from_reload": 100, "db_input_space_compared": 370,
-              "db_other_node_checked": 25, "handle_census": 4600, "ds_roundtrips_hdf": 130, "ds_roundtrips_text": 130,
+MIN_COUNTERS = {  # about half of what seed 0 observes
+    "quick": {"db_histories": 195, "db_exports_append": 1800, "db_exports_full": 260,
+              "db_appends_to_second_node_of_same_file": 420, "db_appends_to_second_file": 600,
+              "db_histories_with_several_append_targets": 115,
+              "db_reloads_compared": 2000, "db_appends_with_new_outputs_at_existing_points": 560,
+              "db_final_equivalence_checked": 350, "db_continued_from_reload": 130, "db_input_space_compared": 600,
+              "db_other_node_checked": 45, "handle_census": 5700, "ds_roundtrips_hdf": 130, "ds_roundtrips_text": 130,
               "ds_roundtrips_hdf_node": 85, "problem_roundtrips": 55, "problem_solutions_compared": 35,
-              "problem_tolerances_compared": 55, "problem_function_descriptions_compared": 200,
+              "problem_tolerances_compared": 55, "problem_function_descriptions_compared": 195,
               "problem_backup_exports": 300, "cache_instances_compared": 96, "cache_continued_after_reopen": 32,
-              "directed_cases": 8},
-    "thorough": {"db_histories": 3600, "db_exports_append": 24000, "db_exports_full": 4200,
-                 "db_exports_append_other": 650, "db_reloads_compared": 28000,
-                 "db_appends_with_new_outputs_at_existing_points": 9500, "db_final_equivalence_checked": 2600,
-                 "db_continued_from_reload": 1800, "db_input_space_compared": 6800, "db_other_node_checked": 450,
-                 "handle_census": 75000, "ds_roundtrips_hdf": 1200, "ds_roundtrips_text": 1200,
+              "directed_cases": 11},
+    "thorough": {"db_histories": 3600, "db_exports_append": 30000, "db_exports_full": 4500,
+                 "db_appends_to_second_node_of_same_file": 6000, "db_appends_to_second_file": 9000,
+                 "db_histories_with_several_append_targets": 1800,
+                 "db_reloads_compared": 33000, "db_appends_with_new_outputs_at_existing_points": 9500,
+                 "db_final_equivalence_checked": 5500, "db_continued_from_reload": 2000,
+                 "db_input_space_compared": 9500, "db_other_node_checked": 700,
+                 "handle_census": 90000, "ds_roundtrips_hdf": 1200, "ds_roundtrips_text": 1200,
                  "ds_roundtrips_hdf_node": 800, "problem_roundtrips": 550, "problem_solutions_compared": 350,
-                 "problem_tolerances_compared": 550, "problem_function_descriptions_compared": 2000,
+                 "problem_tolerances_compared": 550, "problem_function_descriptions_compared": 1900,
                  "problem_backup_exports": 3000, "cache_instances_compared": 960, "cache_continued_after_reopen": 320,
-                 "directed_cases": 8},
+                 "directed_cases": 11},
 }
 SHARD_TIMEOUT = {"quick": 400, "thorough": 2400}
 
@@ -354,14 +361,19 @@ def gen_point(rng, n, int_points, existing):
     raise RuntimeError("could not draw a new point")
 
 
+TARGET_POOL = [["A", ""], ["A", "n1"], ["A", "grp/sub"], ["B", ""], ["B", "n2"]]
+
+
 def gen_db_case(rng):
     n = int(rng.integers(1, 5))
     int_points = bool(rng.random() < 0.3)
-    node = ["", "", "n1", "grp/sub"][int(rng.integers(4))]
     init = ["fresh", "fresh", "fresh", "from_hdf", "update_from_hdf", "other_node"][int(rng.integers(6))]
-    other_targets = bool(rng.random() < 0.35)
+    with_full = bool(rng.random() < 0.3)
+    n_targets = [1, 1, 1, 2, 2, 2, 3, 3, 4][int(rng.integers(9))]
+    targets = [list(TARGET_POOL[i]) for i in rng.permutation(len(TARGET_POOL))[:n_targets]]
     n_steps = int(rng.integers(5, 41))
-    case = {"kind": "db", "n": n, "int_points": int_points, "node": node, "init": init,
+    case = {"kind": "db", "n": n, "int_points": int_points, "targets": targets,
+            "full_node": ["", "n1", "grp/sub"][int(rng.integers(3))], "init": init,
             "space": gen_space(rng, total=n) if rng.random() < 0.3 else None, "prefill": [], "ops": []}
     if case["space"] is not None:
         for var in case["space"]:  # a database input space carries no current value and contains the points
@@ -387,34 +399,55 @@ def gen_db_case(rng):
         model[tuple(p)] |= set(outs)
         return {"op": "store", "p": p, "o": outs, "what": "more"}
 
+    def a_target():
+        # the first target is the main one; the others are appended in any interleaving
+        return 0 if (n_targets == 1 or rng.random() < 0.45) else int(rng.integers(n_targets))
+
     if init in ("from_hdf", "update_from_hdf"):
         for _ in range(int(rng.integers(1, 5))):
             case["prefill"].append(a_store())
         case["prefill_append"] = bool(rng.random() < 0.5)
     for _ in range(n_steps):
         r = rng.random()
-        if r < 0.62:
+        if r < 0.6:
             case["ops"].append(a_store())
-        elif r < 0.85:
-            case["ops"].append({"op": "append"})
-        elif r < 0.93:
-            case["ops"].append({"op": "full" if other_targets else "append"})
+        elif r < 0.89:
+            case["ops"].append({"op": "append", "t": a_target()})
+        elif r < 0.94:
+            case["ops"].append({"op": "full"} if with_full else {"op": "append", "t": a_target()})
         elif r < 0.97:
-            case["ops"].append({"op": "append_other" if other_targets else "store_same"})
+            # re-store an existing name with the identical value and nothing new (harmless by the statement)
+            case["ops"].append({"op": "store_same"})
         else:
-            case["ops"].append({"op": "reload_continue"})
-    # "store_same": re-store an existing name with the identical value together with nothing new (harmless by the statement)
+            case["ops"].append({"op": "reload_continue", "t": a_target()})
+    return case
+
+
+def upgrade_db_case(case):
+    """Witnesses stored before the targets were generalised: one node, files A (main) and C (other)."""
+    if "targets" in case:
+        return case
+    case = copy.deepcopy(case)
+    node = case.pop("node", "")
+    case["targets"] = [["A", node], ["C", node]]
+    case["full_node"] = node
+    for op in case["ops"]:
+        if op["op"] == "append_other":
+            op.update(op="append", t=1)
+        elif op["op"] in ("append", "reload_continue"):
+            op.setdefault("t", 0)
     return case
 
 
 def db_case_signature(case):
     kinds = sorted({d["k"] for op in case["ops"] + case["prefill"] if op["op"] == "store" for d in op["o"].values()})
-    seq = "".join({"store": "s", "append": "A", "full": "F", "append_other": "O", "reload_continue": "R",
-                   "store_same": "="}[op["op"]] if op["op"] != "store" else
-                  {"new": "n", "new-empty": "e", "more": "m", "empty-at-existing": "0"}[op.get("what", "new")]
+    seq = "".join({"new": "n", "new-empty": "e", "more": "m", "empty-at-existing": "0"}[op.get("what", "new")]
+                  if op["op"] == "store" else
+                  {"append": "A%d", "reload_continue": "R%d", "full": "F", "store_same": "="}[op["op"]] % (
+                      (op["t"],) if "t" in op else ())
                   for op in case["ops"])
-    return ("db", case["n"], case["int_points"], case["node"], case["init"], case["space"] is not None,
-            len(case["prefill"]), tuple(kinds), seq)
+    return ("db", case["n"], case["int_points"], tuple(map(tuple, case["targets"])), case["full_node"], case["init"],
+            case["space"] is not None, len(case["prefill"]), tuple(kinds), seq)
 
 
 class DbModel:
@@ -478,20 +511,23 @@ class Abort(Exception):
 
 
 class DbRun:
-    """Executes one database history against the real code; collects findings as dictionaries."""
+    """Executes one database history against the real code; collects findings as dictionaries.
 
-    def __init__(self, case, workdir, rep, scratch, counted):
+    Append targets are (file, node) pairs: several files and several nodes of one file, in any interleaving.
+    """
+
+    def __init__(self, case, workdir, rep, scratch, counted, focus=None):
         self.case, self.dir, self.rep, self.scratch, self.counted = case, workdir, rep, scratch, counted
+        self.focus = focus  # classifier runs: only this target is read back and judged
         self.findings = []
-        self.node = case["node"]
-        self.A = os.path.join(workdir, "A.h5")
-        self.B = os.path.join(workdir, "B.h5")
-        self.C = os.path.join(workdir, "C.h5")
-        self.F = os.path.join(workdir, "F.h5")
-        self.used_c = False
-        self.stores_since_append = 0
-        self.more_since_append = 0
+        self.targets = [(os.path.join(workdir, f"{f}.h5"), node) for f, node in case["targets"]]
+        self.X = os.path.join(workdir, "X.h5")  # full exports during the history (rewritten each time)
+        self.F = os.path.join(workdir, "F.h5")  # the single final export
+        self.full_node = case["full_node"]
+        self.appended = []  # indices of the targets appended so far by the database under test, in first-use order
+        self.more_since = {}  # target index -> stores of new outputs at existing points since its last append
         self.step = -1
+        self.target = None  # index of the target being exported / reloaded (for the classifier)
 
     def count(self, name, k=1):
         if self.counted:
@@ -499,7 +535,7 @@ class DbRun:
 
     def finding(self, clause, kind, observed=None, expected=None, fatal=True):
         self.findings.append({"clause": clause, "kind": kind, "step": self.step, "observed": observed,
-                              "expected": expected})
+                              "expected": expected, "target": self.target})
         if fatal:
             raise Abort
 
@@ -557,12 +593,15 @@ class DbRun:
             self.census("end-of-history")
         return self.findings
 
+    def files(self):
+        return sorted({path for path, _ in self.targets})
+
     def _run(self):
         from gemseo.algos.database import Database
 
-        case, node = self.case, self.node
+        case = self.case
         model = DbModel(case["int_points"])
-        # ---- initial state of the main file
+        # ---- initial state of the files
         other = None
         if case["init"] == "other_node":
             other = DbModel(False)
@@ -570,37 +609,41 @@ class DbRun:
             for i in range(3):
                 op = {"p": [float(i), 0.5], "o": {"f": {"k": "float", "v": 1.5 * i}, "@f": {"k": "vec", "v": [i, 2.0]}}}
                 self.do_store(odb, other, op)
-            self.call("append-export-raises", odb.to_hdf, self.A, append=True, hdf_node_path="other")
-            self.call("append-export-raises", odb.to_hdf, self.C, append=True, hdf_node_path="other")
+            for path in self.files():
+                self.call("append-export-raises", odb.to_hdf, path, append=True, hdf_node_path="other")
             self.census("Database.to_hdf:append")
         if case["init"] in ("from_hdf", "update_from_hdf"):
+            self.target = 0
+            path, node = self.targets[0]
             db0 = self.new_db()
             for op in case["prefill"]:
                 self.do_store(db0, model, op)
             self.call("append-export-raises" if case.get("prefill_append") else "full-export-raises",
-                      db0.to_hdf, self.A, append=bool(case.get("prefill_append")), hdf_node_path=node)
+                      db0.to_hdf, path, append=bool(case.get("prefill_append")), hdf_node_path=node)
             self.census("Database.to_hdf:prefill")
             if case["init"] == "from_hdf":
-                self.db = self.call("reload-of-appended-file-raises", Database.from_hdf, self.A, hdf_node_path=node,
+                self.db = self.call("reload-of-appended-file-raises", Database.from_hdf, path, hdf_node_path=node,
                                     log=False)
             else:
                 self.db = self.new_db()
-                self.call("reload-of-appended-file-raises", self.db.update_from_hdf, self.A, hdf_node_path=node)
+                self.call("reload-of-appended-file-raises", self.db.update_from_hdf, path, hdf_node_path=node)
             self.census("Database.from_hdf:prefill")
             d = diff_db(self.db, model)
             if d is not None:
                 self.finding("reload-of-full-export-differs-from-memory", d["kind"], d)
             del db0
+            self.target = None
         else:
             self.db = self.new_db()
         # ---- the history
         for self.step, op in enumerate(case["ops"]):
             kind = op["op"]
+            self.target = None
             if kind == "store":
                 if tuple(op["p"]) in model.outs and op["o"]:
-                    self.more_since_append += 1
+                    for t in self.more_since:
+                        self.more_since[t] += 1
                 self.do_store(self.db, model, op)
-                self.stores_since_append += 1
             elif kind == "store_same":
                 if model.points:
                     p = model.points[len(model.points) // 2]
@@ -609,95 +652,131 @@ class DbRun:
                         self.do_store(self.db, model, {"p": list(p), "o": {name: model.outs[p][name]}})
                         self.count("db_restore_same_value")
             elif kind in ("append", "reload_continue"):
-                self.append_main(model)
+                t = min(op.get("t", 0), len(self.targets) - 1)
+                self.append_to(t, model)
                 if kind == "reload_continue" and len(self.db):
-                    r = self.call("reload-of-appended-file-raises", Database.from_hdf, self.A, hdf_node_path=node,
+                    path, node = self.targets[t]
+                    self.target = t
+                    r = self.call("reload-of-appended-file-raises", Database.from_hdf, path, hdf_node_path=node,
                                   log=False)
                     self.census("Database.from_hdf:appended-file")
                     self.db = r
+                    # a new Database object: it has appended nothing yet
+                    self.appended, self.more_since = [], {}
                     self.count("db_continued_from_reload")
             elif kind == "full":
                 if len(self.db) == 0:
                     continue
-                self.call("full-export-raises", self.db.to_hdf, self.B, append=False, hdf_node_path=node)
+                self.call("full-export-raises", self.db.to_hdf, self.X, append=False, hdf_node_path=self.full_node)
                 self.census("Database.to_hdf:full")
                 self.count("db_exports_full")
-                r = self.reload(self.B, node, "full-export", model)
+                r = self.reload(self.X, self.full_node, "full-export", model)
                 self.check_space(r, "full-export")
-            elif kind == "append_other":
-                if len(self.db) == 0:
-                    continue
-                self.call("append-export-raises", self.db.to_hdf, self.C, append=True, hdf_node_path=node)
-                self.census("Database.to_hdf:append")
-                self.used_c = True
-                self.count("db_exports_append_other")
-                self.reload(self.C, node, "appended-file", model)
-        # ---- final flush, single full export, equivalence
+        # ---- final flush of every target used in the history, single full export, equivalence
         self.step = len(case["ops"])
+        self.target = None
         if not model.points:
             return
-        self.append_main(model, final=True)
-        ra = self.reload(self.A, node, "appended-file", model)
-        rc = None
-        if self.used_c:
-            self.call("append-export-raises", self.db.to_hdf, self.C, append=True, hdf_node_path=node)
-            self.census("Database.to_hdf:append")
-            rc = self.reload(self.C, node, "appended-file", model)
-        self.call("full-export-raises", self.db.to_hdf, self.F, append=False, hdf_node_path=node)
+        used = sorted({min(op.get("t", 0), len(self.targets) - 1) for op in case["ops"]
+                       if op["op"] in ("append", "reload_continue")}) or [0]
+        for t in used:
+            self.append_to(t, model, final=True)
+        reloads = {}
+        for t in used:
+            if self.focus is not None and t != self.focus:
+                continue
+            self.target = t
+            reloads[t] = self.reload(*self.targets[t], "appended-file", model)
+        self.target = None
+        self.call("full-export-raises", self.db.to_hdf, self.F, append=False, hdf_node_path=self.full_node)
         self.census("Database.to_hdf:full")
         self.count("db_exports_full")
-        rf = self.reload(self.F, node, "full-export", model)
-        for r in (ra, rc):
-            if r is None:
-                continue
+        rf = self.reload(self.F, self.full_node, "full-export", model)
+        for t, r in reloads.items():
+            self.target = t
             self.count("db_final_equivalence_checked")
             d = diff_db_db(r, rf)
             if d is not None:
                 self.finding("appended-file-and-single-export-differ", d["kind"], d)
-        self.check_space(ra, "appended-file")
+            self.check_space(r, "appended-file")
+        self.target = None
         self.check_space(rf, "full-export")
+        if len(used) > 1:
+            self.count("db_histories_with_several_append_targets")
         if other is not None:
-            for path in (self.A,) + ((self.C,) if self.used_c else ()):
+            for path in sorted({self.targets[t][0] for t in used}):
                 r = self.call("reload-of-other-node-raises", Database.from_hdf, path, hdf_node_path="other", log=False)
                 self.count("db_other_node_checked")
                 d = diff_db(r, other)
                 if d is not None:
                     self.finding("other-node-of-the-file-changed", d["kind"], d)
 
-    def append_main(self, model, final=False):
+    def append_to(self, t, model, final=False):
         if len(self.db) == 0:
             return
-        self.call("append-export-raises", self.db.to_hdf, self.A, append=True, hdf_node_path=self.node)
+        path, node = self.targets[t]
+        self.target = t
+        self.call("append-export-raises", self.db.to_hdf, path, append=True, hdf_node_path=node)
         self.census("Database.to_hdf:append")
         self.count("db_exports_append")
-        if self.more_since_append:
+        if self.more_since.get(t):
             self.count("db_appends_with_new_outputs_at_existing_points")
-        self.stores_since_append = self.more_since_append = 0
-        if not final:
-            self.reload(self.A, self.node, "appended-file", model)
+        self.more_since[t] = 0
+        before = [self.targets[u] for u in self.appended if u != t]
+        if any(p == path and nd != node for p, nd in before):
+            self.count("db_appends_to_second_node_of_same_file")
+        if any(p != path for p, nd in before):
+            self.count("db_appends_to_second_file")
+        if t not in self.appended:
+            self.appended.append(t)
+        if not final and (self.focus is None or t == self.focus):
+            self.reload(path, node, "appended-file", model)
+        self.target = None
 
 
 _counter = [0]
 
 
-def exec_db_case(case, rep, scratch, counted=False):
+def exec_db_case(case, rep, scratch, counted=False, focus=None):
+    case = upgrade_db_case(case)
     _counter[0] += 1
     workdir = os.path.join(scratch, f"c11_db_{os.getpid()}_{_counter[0]}")
     os.makedirs(workdir)
     try:
-        return DbRun(case, workdir, rep, scratch, counted).run()
+        return DbRun(case, workdir, rep, scratch, counted, focus).run()
     finally:
         shutil.rmtree(workdir, ignore_errors=True)
 
 
-def without_other_targets(case):
+def _clip(case, op):
+    return min(op.get("t", 0), len(case["targets"]) - 1)
+
+
+def restricted(case, t, drop):
+    """Twin history for the classifier: exports to other targets than ``t`` removed.
+
+    ``drop``: "nodes" removes the appends to the other nodes of the file of target ``t``; "files" removes the appends
+    to the other files and the full exports; "all" removes both (only target ``t`` is left).
+    """
     twin = copy.deepcopy(case)
-    twin["ops"] = [op for op in twin["ops"] if op["op"] not in ("full", "append_other")]
+    file_t = case["targets"][t][0]
+    ops = []
+    for op in twin["ops"]:
+        if op["op"] == "full":
+            if drop in ("files", "all"):
+                continue
+        elif op["op"] in ("append", "reload_continue") and _clip(case, op) != t:
+            same_file = case["targets"][_clip(case, op)][0] == file_t
+            if (same_file and drop in ("nodes", "all")) or (not same_file and drop in ("files", "all")):
+                continue
+        ops.append(op)
+    twin["ops"] = ops
     return twin
 
 
-def has_other_targets(case):
-    return any(op["op"] in ("full", "append_other") for op in case["ops"])
+def has_other_targets(case, t):
+    return any(op["op"] == "full" or (op["op"] in ("append", "reload_continue") and _clip(case, op) != t)
+               for op in case["ops"])
 
 
 def first_real(findings):
@@ -707,15 +786,30 @@ def first_real(findings):
     return None
 
 
+LOST = "C11:database:append:entries-stored-before-an-export-to-another-%s-are-lost"
+
+
 def db_signature(case, f, rep, scratch):
-    """Mechanism signature of a database finding (narrow: decided by a twin history, never by values)."""
+    """Mechanism signature of a database finding (narrow: decided by twin histories, never by values)."""
+    case = upgrade_db_case(case)
     base = f"C11:database:{f['clause']}:{f['kind']}"
-    if has_other_targets(case) and f["clause"] != "full-export-raises":
-        quiet = Reporter(PID)
-        twin = first_real(exec_db_case(without_other_targets(case), quiet, scratch))
-        if twin is None:
-            return "C11:database:append:entries-stored-before-an-export-to-another-file-are-lost"
-    return base
+    t = f.get("target")
+    if t is None or f["clause"] == "full-export-raises" or not has_other_targets(case, t):
+        return base
+    quiet = Reporter(PID)
+
+    def fails(drop):  # judged on target t only (the other targets are exported but not read back)
+        return first_real(exec_db_case(restricted(case, t, drop), quiet, scratch, focus=t)) is not None
+
+    if fails("all"):
+        return base  # target t alone already fails: not this mechanism
+    with_nodes = fails("files")  # what is left: target t + the other nodes of its file
+    with_files = fails("nodes")  # what is left: target t + the other files (and the full exports)
+    if with_nodes and not with_files:
+        return LOST % "node-of-the-same-file"
+    if with_files and not with_nodes:
+        return LOST % "file"
+    return LOST % "target"
 
 
 def shrink_db_case(case, sig, rep, scratch, budget=120):
@@ -737,7 +831,7 @@ def shrink_db_case(case, sig, rep, scratch, budget=120):
             if same(cand):
                 cur = cand
             i -= 1
-    for simpl in ({"space": None}, {"node": ""}, {"init": "fresh", "prefill": []}):
+    for simpl in ({"space": None}, {"full_node": ""}, {"init": "fresh", "prefill": []}):
         cand = dict(copy.deepcopy(cur), **simpl)
         if tries < budget + 10 and same(cand):
             cur = cand
@@ -757,6 +851,7 @@ def shrink_db_case(case, sig, rep, scratch, budget=120):
 
 
 def run_db_case(case, rep, scratch, shrink=True):
+    case = upgrade_db_case(case)
     stores = [op for op in case["ops"] + case["prefill"] if op["op"] == "store"]
     exports = [op for op in case["ops"] if op["op"] != "store"]
     rep.case(db_case_signature(case), bool(stores))
@@ -776,11 +871,12 @@ def run_db_case(case, rep, scratch, shrink=True):
         except Exception:
             witness = case
     rep.violation(sig, f["clause"], witness, observed=f.get("observed"), expected=f.get("expected"),
-                  msg=f"step {f['step']} of {len(witness['ops'])} operations ({len(exports)} exports in the original)")
+                  msg=f"step {f['step']} of {len(witness['ops'])} operations, target {f.get('target')} "
+                      f"({len(exports)} exports in the original)")
     if sig.endswith("are-lost"):
-        # the same history without the exports to other files is a valid case of its own: keep exploring the
+        # the same history restricted to the failing target is a valid case of its own: keep exploring the
         # append path behind the known mechanism
-        twin = without_other_targets(case)
+        twin = restricted(case, f.get("target") or 0, "all")
         rep.count("db_twin_histories_without_other_targets")
         f3 = first_real(exec_db_case(twin, rep, scratch))
         if f3 is not None:
@@ -1384,6 +1480,24 @@ def directed_db_cases():
     # new outputs at an existing point, then an append to a third file, then the main append
     out.append(dict(base, ops=[_st([1.0, 2.0], f=F(1.0)), {"op": "append"}, _st([1.0, 2.0], "more", g=F(2.0)),
                                {"op": "append_other"}, {"op": "append"}]))
+    # the same database backed up incrementally in two nodes of ONE file, in alternation: new point, then new
+    # outputs at an existing point (root + nested node, then two nested nodes and a second file)
+    new = {"kind": "db", "n": 2, "int_points": False, "full_node": "", "init": "fresh", "space": None, "prefill": []}
+
+    def A(t):
+        return {"op": "append", "t": t}
+
+    for targets in ([["A", ""], ["A", "n1"]], [["A", "grp/sub"], ["A", "n1"], ["B", "n1"]]):
+        k = len(targets)
+        out.append(dict(new, targets=targets, ops=[
+            _st([0.0, 1.0], f=F(1.0), g=V(1.0, 2.0)), *[A(t) for t in range(k)],
+            _st([1.0, 2.0], f=F(2.0)), *[A(t) for t in range(k)],
+            _st([0.0, 1.0], "more", **{"@f": {"k": "mat", "v": [[3.0, 4.0]]}, "h": F(5.0)}), *[A(t) for t in range(k)],
+            _st([2.0, 3.0], "new-empty"), A(k - 1), _st([2.0, 3.0], "more", f=F(6.0)), A(0), A(k - 1)]))
+    # reload from the second node and continue towards both nodes
+    out.append(dict(new, targets=[["A", "n1"], ["A", ""]], ops=[
+        _st([1.0, 1.0], f=F(1.0)), A(0), A(1), _st([2.0, 2.0], f=F(2.0)), {"op": "reload_continue", "t": 1},
+        _st([1.0, 1.0], "more", g=F(3.0)), A(0), _st([3.0, 3.0], f=F(4.0)), A(1), A(0)]))
     return out
 
 
